@@ -10,6 +10,7 @@ import (
 	"strconv"
 	"strings"
 	"sync"
+	"sync/atomic"
 	"time"
 
 	"github.com/fido-device-onboard/go-fdo/kex"
@@ -172,6 +173,12 @@ func runHistory(p core.Params) (line, impl string) {
 	}
 	d := raw.NewDriver(e, dev, raw.Config{Kex: kexByName(p["kex"]), Cipher: kex.CipherSuiteID(cipher), Reuse: reuse})
 	d.Other = other
+	d.KeepRejectedKeys = p["keepkeys"] == "1"
+	invfail := -1 // index of the step during which the token store fails to invalidate (fault injection)
+	if p["invfail"] != "" {
+		invfail, _ = strconv.Atoi(p["invfail"])
+	}
+	defer atomic.StoreInt32(&e.InvalFail, 0)
 	if p["prereg"] == "1" { // TO1 needs a registered blob: an honest TO0 that is not part of the history
 		if _, err := e.TO0(ctx, dev.Cred.GUID, []protocol.RvTO2Addr{{DNSAddress: strp("owner.test"), Port: 8043, TransportProtocol: protocol.HTTPSTransport}}); err != nil {
 			lastHist.Err = "to0: " + err.Error()
@@ -181,7 +188,12 @@ func runHistory(p core.Params) (line, impl string) {
 	var lsb, isb strings.Builder
 	lsb.WriteString("srv.history (")
 	isb.WriteString("ok")
-	for _, st := range parseHist(p["hist"]) {
+	for si, st := range parseHist(p["hist"]) {
+		if si == invfail {
+			atomic.StoreInt32(&e.InvalFail, 1)
+		} else {
+			atomic.StoreInt32(&e.InvalFail, 0)
+		}
 		drv := func(l int) int {
 			if l >= 0 && l < len(logical) {
 				return logical[l]
@@ -466,11 +478,11 @@ func srvConfigs(c *core.Ctx) []srvCfg {
 		{env.RSA2048, kex.DHKEXid14Suite, kex.CoseAes128CtrCipher, false},
 		{env.P384, kex.ECDH384Suite, kex.A256GcmCipher, true},
 		{env.RSA2048, kex.ASYMKEX2048Suite, kex.CoseAes128CbcCipher, true},
-		{env.P256, kex.ECDH256Suite, kex.AesCcm64_128_128Cipher, false},
+		{env.P256, kex.ECDH256Suite, kex.A192GcmCipher, false},
 		{env.RSAPKCS, kex.DHKEXid15Suite, kex.CoseAes256CtrCipher, false},
 		{env.RSAPSS2, kex.DHKEXid14Suite, kex.A128GcmCipher, false},
 		{env.RSAPSS3, kex.ASYMKEX3072Suite, kex.CoseAes256CbcCipher, false},
-		{env.P384, kex.ECDH384Suite, kex.AesCcm64_128_256Cipher, false},
+		{env.P384, kex.ECDH384Suite, kex.A256GcmCipher, false},
 	}
 	if c.Quick() {
 		return all[:3]
@@ -505,8 +517,10 @@ func genSystematic(name string, emit func(h []hstep, meta string)) {
 			h := append(seqSteps(msgs[:i], 0), seqSteps(msgs[i+1:], 0)...)
 			emit(h, "dropped-message")
 			// error message before message i, then go on
-			h = append(append(seqSteps(msgs[:i], 0), hstep{Msg: 255, Sess: 0, Tok: 's', From: -1}), seqSteps(msgs[i:], 0)...)
-			emit(h, "error-message-then-continue")
+			for _, ef := range []string{"", "prev-0", "prev-99", "prev-255", "garbage", "empty"} {
+				h = append(append(seqSteps(msgs[:i], 0), hstep{Msg: 255, Sess: 0, Tok: 's', From: -1, Fault: ef}), seqSteps(msgs[i:], 0)...)
+				emit(h, "error-message-then-continue")
+			}
 			// a parallel session of the same protocol: message i arrives with the other session's token / body
 			par := append(seqSteps(msgs[:i], 0), seqSteps(msgs[:i], 1)...)
 			// fix logical numbering: the second run's start is session 1
